@@ -402,8 +402,12 @@ class Server(Acceptor):
         """
         Service transmits for all remoters in .ixes
         """
-        for rm in self.ixes.values():  # remoter
-            rm.serviceSends()
+        for ca, ix in list(self.ixes.items()):  # list so can remove while iterating
+            try:
+                ix.serviceSends()
+            except OSError as ex:
+                logger.error("Closing incoming socket on %s.\n%s\n", ca, ex)
+                self.removeIx(ca=ca)  # also closes ix
 
 
     def service(self):
